@@ -50,6 +50,7 @@ pub enum Guard {
     Exact(u128),
     AtMost(u128),
     Range(u128, u128),
+    Unknown,
 }
 
 impl Guard {
@@ -59,6 +60,7 @@ impl Guard {
             Guard::Exact(e) => n == e,
             Guard::AtMost(m) => n <= m,
             Guard::Range(a, b) => a <= n && n <= b,
+            Guard::Unknown => true,
         }
     }
 }
@@ -107,7 +109,22 @@ pub fn scan_guards(root: &std::path::Path) -> BTreeMap<(Ns, String), (Guard, Str
                     } else if let Some(r) = next.strip_prefix("if body_size > ") {
                         r.strip_suffix(" {").and_then(num).map(Guard::AtMost)
                     } else if let Some(r) = next.strip_prefix("if !(") {
-                        r.strip_suffix(").contains(&body_size) {").and_then(|r| r.split_once("..=")).and_then(|(a, b)| Some(Guard::Range(num(a)?, num(b)?)))
+                        // any Rust range literal: a..=b, a..b, ..=b, ..b, a..
+                        r.strip_suffix(").contains(&body_size) {").and_then(|r| {
+                            if let Some((a, b)) = r.split_once("..=") {
+                                let lo = if a.trim().is_empty() { 0 } else { num(a)? };
+                                Some(Guard::Range(lo, num(b)?))
+                            } else if let Some((a, b)) = r.split_once("..") {
+                                let lo = if a.trim().is_empty() { 0 } else { num(a)? };
+                                let hi = if b.trim().is_empty() { u128::MAX } else { num(b)?.checked_sub(1)? };
+                                Some(Guard::Range(lo, hi))
+                            } else {
+                                None
+                            }
+                        })
+                    } else if next.starts_with("if ") && next.contains("body_size") {
+                        // a size test in a form this scanner does not know: reported, not guessed
+                        Some(Guard::Unknown)
                     } else {
                         Some(Guard::None)
                     };
@@ -240,6 +257,7 @@ pub fn compare(t: &GenTree, only: Option<&BTreeSet<String>>, stats: &mut SizeSta
                             Guard::Exact(_) => "guard.exact",
                             Guard::AtMost(_) => "guard.at-most",
                             Guard::Range(..) => "guard.range",
+                            Guard::Unknown => "guard.unknown-form",
                         }
                         .to_string())
                         .or_insert(0) += 1;
@@ -274,7 +292,15 @@ pub fn compare(t: &GenTree, only: Option<&BTreeSet<String>>, stats: &mut SizeSta
                                 Guard::Range(ir_min, mx)
                             }
                         };
-                        if *g != expect && *g != Guard::None {
+                        // a..=b and 0..=b / ..=b describe the same set as AtMost(b)
+                        let norm = |g: Guard| match g {
+                            Guard::Range(0, b) => Guard::AtMost(b),
+                            x => x,
+                        };
+                        if *g == Guard::Unknown {
+                            fails.push(Failure { sig: format!("c09:{}:guard-form-not-understood", label), object: o.name().to_string(), what: format!("{} tests body_size in a form that is none of `!=`, `>`, `!(range).contains`", at), detail: d.clone() });
+                        }
+                        if norm(*g) != norm(expect) && *g != Guard::None && *g != Guard::Unknown {
                             fails.push(Failure { sig: format!("c09:{}:guard-differs-from-ir", label), object: o.name().to_string(), what: format!("{} has guard {:?} but the IR sizes give {:?}", at, g, expect), detail: d });
                         }
                     }
